@@ -42,6 +42,9 @@ pub struct Opts {
     pub monitors: bool,
     /// C20: try every illegal call on every job at every step
     pub probes: bool,
+    /// big graphs (C19): perform up to this many enabled actions per loop iteration
+    /// (acks, then starts, then finishes) instead of one chosen by the schedule; 0 = off
+    pub batch: usize,
 }
 
 #[derive(Clone, Debug, Default)]
@@ -324,6 +327,14 @@ pub fn run_eval(w: &mut World, plan: &Plan, sched: &Sched, opts: &Opts) -> EvalO
         let cleanup: BTreeSet<String> = g.query_ready_for_cleanup().into_iter().collect();
         let my_running: BTreeSet<String> = running.iter().cloned().collect();
         res.max_concurrency = res.max_concurrency.max(running.len());
+        if !opts.monitors {
+            for c in cleanup.iter() {
+                offered_cleanup.insert(c.clone());
+            }
+            for j in ready.iter() {
+                ever_ready.insert(j.clone());
+            }
+        }
         if opts.monitors {
             let snap0 = g.verif_snapshot();
             let st: BTreeMap<&str, &str> = snap0.jobs.iter().map(|x| (x.0.as_str(), x.1.as_str())).collect();
@@ -623,7 +634,7 @@ pub fn run_eval(w: &mut World, plan: &Plan, sched: &Sched, opts: &Opts) -> EvalO
                 actions.push((2, c.clone()));
             }
         }
-        if running.len() < (sched.max_running.max(1) as usize) {
+        if opts.batch > 0 || running.len() < (sched.max_running.max(1) as usize) {
             for j in startable.iter() {
                 actions.push((0, j.clone()));
             }
@@ -637,8 +648,20 @@ pub fn run_eval(w: &mut World, plan: &Plan, sched: &Sched, opts: &Opts) -> EvalO
             res.engine_error = Some("no action".into());
             break;
         }
-        let byte = sched.choices.get(nactions).cloned().unwrap_or(0) as usize;
-        let (a, j) = actions[byte * actions.len() >> 8].clone();
+        let todo: Vec<(u8, String)> = if opts.batch > 0 {
+            let mut t: Vec<(u8, String)> = vec![];
+            t.extend(actions.iter().filter(|a| a.0 == 2).cloned());
+            t.extend(actions.iter().filter(|a| a.0 == 0).cloned());
+            if t.is_empty() {
+                t.extend(actions.iter().filter(|a| a.0 == 1).cloned());
+            }
+            t.truncate(opts.batch);
+            t
+        } else {
+            let byte = sched.choices.get(nactions).cloned().unwrap_or(0) as usize;
+            vec![actions[byte * actions.len() >> 8].clone()]
+        };
+        for (a, j) in todo {
         nactions += 1;
         match a {
             0 => {
@@ -670,7 +693,7 @@ pub fn run_eval(w: &mut World, plan: &Plan, sched: &Sched, opts: &Opts) -> EvalO
             1 => {
                 running.retain(|x| *x != j);
                 let s = ids[&j];
-                if plan.fail & (1 << s) != 0 {
+                if plan.fails(s) {
                     res.events.push(format!("fail {}", j));
                     leave_failed_output(w, s, &j, plan.fail_mode);
                     w.ledger.entry(j.clone()).or_default().failed_since = true;
@@ -756,7 +779,8 @@ pub fn run_eval(w: &mut World, plan: &Plan, sched: &Sched, opts: &Opts) -> EvalO
                 }
             }
         }
-        if nactions > bound {
+        }
+        if nactions > bound + opts.batch {
             res.v("C05", "step-bound-exceeded", format!("{} driver actions for {} jobs", nactions, njobs));
             res.engine_error = Some("step bound".into());
             break;
